@@ -76,7 +76,7 @@ type Config struct {
 type badgerOptions struct {
 	Dir                     string                   `json:"dir"`
 	ValueDir                string                   `json:"value_dir"`
-	SyncWrites              bool                     `json:"sync_writes"`
+	SyncWrites              *bool                    `json:"sync_writes"`
 	TableLoadingMode        *options.FileLoadingMode `json:"table_loading_mode"`
 	ValueLogLoadingMode     *options.FileLoadingMode `json:"value_log_loading_mode"`
 	NumVersionsToKeep       int                      `json:"num_versions_to_keep"`
@@ -93,14 +93,16 @@ type badgerOptions struct {
 	NumCompactors           int                      `json:"num_compactors"`
 	CompactL0OnClose        bool                     `json:"compact_l_0_on_close"`
 	ReadOnly                bool                     `json:"read_only"`
-	Truncate                bool                     `json:"truncate"`
+	Truncate                *bool                    `json:"truncate"`
 }
 
 func (bo *badgerOptions) Unmarshal() *badger.Options {
 	badgerOpts := &badger.Options{}
 	badgerOpts.Dir = bo.Dir
 	badgerOpts.ValueDir = bo.ValueDir
-	badgerOpts.SyncWrites = bo.SyncWrites
+	if sw := bo.SyncWrites; sw != nil {
+		badgerOpts.SyncWrites = *sw
+	}
 	if tlm := bo.TableLoadingMode; tlm != nil {
 		badgerOpts.TableLoadingMode = *tlm
 	}
@@ -121,7 +123,9 @@ func (bo *badgerOptions) Unmarshal() *badger.Options {
 	badgerOpts.NumCompactors = bo.NumCompactors
 	badgerOpts.CompactL0OnClose = bo.CompactL0OnClose
 	badgerOpts.ReadOnly = bo.ReadOnly
-	badgerOpts.Truncate = bo.Truncate
+	if tr := bo.Truncate; tr != nil {
+		badgerOpts.Truncate = *tr
+	}
 
 	return badgerOpts
 }
@@ -129,7 +133,7 @@ func (bo *badgerOptions) Unmarshal() *badger.Options {
 func (bo *badgerOptions) Marshal(badgerOpts *badger.Options) {
 	bo.Dir = badgerOpts.Dir
 	bo.ValueDir = badgerOpts.ValueDir
-	bo.SyncWrites = badgerOpts.SyncWrites
+	bo.SyncWrites = &badgerOpts.SyncWrites
 	bo.TableLoadingMode = &badgerOpts.TableLoadingMode
 	bo.ValueLogLoadingMode = &badgerOpts.ValueLogLoadingMode
 	bo.NumVersionsToKeep = badgerOpts.NumVersionsToKeep
@@ -146,7 +150,7 @@ func (bo *badgerOptions) Marshal(badgerOpts *badger.Options) {
 	bo.NumCompactors = badgerOpts.NumCompactors
 	bo.CompactL0OnClose = badgerOpts.CompactL0OnClose
 	bo.ReadOnly = badgerOpts.ReadOnly
-	bo.Truncate = badgerOpts.Truncate
+	bo.Truncate = &badgerOpts.Truncate
 }
 
 type jsonConfig struct {
@@ -239,6 +243,16 @@ func (cfg *Config) applyJSONConfig(jcfg *jsonConfig) error {
 
 	if jcfg.BadgerOptions.ValueLogLoadingMode != nil {
 		cfg.BadgerOptions.ValueLogLoadingMode = *jcfg.BadgerOptions.ValueLogLoadingMode
+	}
+
+	// These default to true: mergo skips a false value, so they are
+	// pointers and get assigned explicitly when present.
+	if jcfg.BadgerOptions.SyncWrites != nil {
+		cfg.BadgerOptions.SyncWrites = *jcfg.BadgerOptions.SyncWrites
+	}
+
+	if jcfg.BadgerOptions.Truncate != nil {
+		cfg.BadgerOptions.Truncate = *jcfg.BadgerOptions.Truncate
 	}
 
 	return cfg.Validate()
